@@ -26,6 +26,7 @@ type KnownFinding struct {
 	Commit     string `json:"commit,omitempty"`
 	Witness    string `json:"witness,omitempty"`
 	Replay     string `json:"replay,omitempty"`
+	Signature  string `json:"signature,omitempty"` // bounded stand-ins: text the failure output must contain to be this finding
 }
 
 func loadKnown() []KnownFinding {
@@ -716,6 +717,11 @@ func report(P *Program, DB *ContractDB, res *checkResult, prop, tier string, wri
 		jb, _ := json.MarshalIndent(b, "", " ")
 		os.WriteFile(path, jb, 0o644)
 		if strings.Contains(b.Output, "--- FAIL") {
+			if kf := isKnown(prop + "/bounded[" + b.Name + "]"); kf != nil && kf.Signature != "" && strings.Contains(b.Output, kf.Signature) {
+				nKnown++
+				fmt.Printf("KNOWN-FINDING: property=%s %s [%s]\n", prop, kf.What, prop+"/bounded["+b.Name+"]")
+				continue
+			}
 			violations = append(violations, fmt.Sprintf("VIOLATION property=%s replay=%s obligation=%q bounded stand-in failed on the real code (bound %s)", prop, path, prop+"/bounded["+b.Name+"]", b.Bound))
 		} else {
 			fmt.Printf("BROKEN-CHECK: bounded stand-in %s did not run: %s\n", b.Name, firstLines(b.Output, 3))
